@@ -64,6 +64,9 @@ fn programs() -> Vec<(&'static str, String)> {
     vec![
         ("valid", body("  a := 1; (* \u{fc} *)\n")),
         ("valid-comment-before-statement", body("  (* \u{e9}\u{20ac} *) a := 1;\n")),
+        ("valid-non-ascii-before-character-code", body("  s := 'Preis 25\u{20ac}$0D$0A'; a := 1;\n")),
+        ("valid-non-ascii-directly-before-escapes", body("  s := '\u{e9}$0D\u{e4}$N\u{20ac}$$'; w := \"\u{20ac}$00E9\u{e9}$L\u{e9}$\"\"; a := 1;\n")),
+        ("valid-escapes-before-non-ascii", body("  s := '$0A\u{e4}$'\u{20ac}$T\u{fc}'; w := \"$00DF\u{df}\"; a := 1;\n")),
         ("semantic-fault-same-line-after-comment", body("  (* \u{e9} *) a := 1; (* \u{fc}\u{20ac} *) b := 2;\n")),
         ("semantic-fault-same-line-after-string", body("  s := '\u{e9}\u{20ac}\u{2122}'; b := 2;\n")),
         ("semantic-fault-later-line", body("  (* \u{e9} *) a := 1; (* \u{fc}\u{20ac} *)\n  a := 2;\n  b := 2;\n")),
@@ -311,6 +314,9 @@ pub fn run(ctx: &mut Ctx) {
             }
         }
         // the faulty programs must really be diagnosed (non-vacuity), with a position on the expected line
+        if name.starts_with("valid") && !base.3.ok {
+            ctx.fail(&format!("valid-program-rejected/{}", name), &format!("the valid program is reported {:?}", base.3.diags), json!({"mode":"program","program":name,"encoding":"utf8","text":text}));
+        }
         if name.contains("fault") && base.3.ok {
             ctx.fail(&format!("planted-fault-not-diagnosed/{}", name), "the faulty program is reported OK", json!({"mode":"program","program":name,"encoding":"utf8","text":text}));
         }
